@@ -27,3 +27,29 @@ Proof. exact write_refused_no_effect. Qed.
 
 Theorem C03_reachable_inv : forall w t ls, 1 <= t -> 1 <= w < 4294967296 -> Inv (run (init w t) ls).
 Proof. intros w t ls Ht Hw. apply run_inv, inv_init; auto. Qed.
+
+(* ---- writers racing for credit (atomic level; Atomic/TwoWriters.v) ---- *)
+From PV Require Import Atomic.Model Atomic.Proofs Atomic.TwoWriters Atomic.TwoProofs.
+
+(* two writers sharing one stream, an acknowledge and a close, every interleaving of their atomic
+   operations, any initial credit, grant and numbers of polls: credit is conserved *)
+Theorem C03_racing_writers_conservation : forall c pa pb ack close,
+  c + (match ack with Some n => n | None => 0 end) < 4294967296 ->
+  forall s, reach2 (init2 c pa pb ack close) s ->
+  c2 s + nready (w_res (wa s)) + nready (w_res (wb s)) = c + added2 s.
+Proof. exact racing_writers_conservation. Qed.
+
+Theorem C03_racing_writers_no_overdraw : forall c pa pb ack close,
+  c + (match ack with Some n => n | None => 0 end) < 4294967296 ->
+  forall s, reach2 (init2 c pa pb ack close) s ->
+  nready (w_res (wa s)) + nready (w_res (wb s)) <= c + (match ack with Some n => n | None => 0 end).
+Proof. exact racing_writers_no_overdraw. Qed.
+
+(* one successful poll takes exactly one unit from a positive credit *)
+Theorem C03_racing_writer_takes_one : forall c pa pb ack close,
+  c + (match ack with Some n => n | None => 0 end) < 4294967296 ->
+  forall s s' t pre, reach2 (init2 c pa pb ack close) s ->
+  (t = TA \/ t = TB) -> step2 s t = Some s' ->
+  (let w := match t with TA => wa | _ => wb end in w_res (w s') = pre ++ [RReady] /\ w_res (w s) = pre) ->
+  1 <= c2 s /\ c2 s' = c2 s - 1.
+Proof. exact racing_writer_takes_one. Qed.
